@@ -268,7 +268,7 @@ pub fn generate(ctx: &mut Ctx) {
     // timestamps whose LOCAL time is ambiguous or special in their zone (both passes of the repeated hour at the end of
     // daylight saving time, the instants around the skipped hour, offsets with seconds), with sub-second parts:
     // anything an encoder does through the local wall clock fails exactly there
-    for dt in gen::dst_edge_datetimes().into_iter().chain(gen::lmt_datetimes()) {
+    for dt in gen::dst_edge_datetimes().into_iter().chain(gen::lmt_datetimes()).chain(gen::leap_datetimes()) {
         let v = Value::DateTime(dt);
         ctx.case("dst", &format!("v {}", vx::show(&v)));
         let mut dd = Dict::new();
